@@ -30,4 +30,16 @@ var propMeta = map[string]*PropMeta{
 		Real:  realS, Stub: stubS, Assumptions: commonAssumptions,
 		Probes: []string{"site.flush.swapped", "site.rs.applied", "op.flush", "op.adv"},
 	},
+	"C04": {
+		Level: "exploration", QuickSecs: 40, ThoroughSecs: 600, Recycle: 300,
+		Rule: "one case = one seeded plan: generated schema (incl. PERCENTILE/SHIFT fields) and dataset with a random memstore/filestore split (timer and forced flushes), then 1-6 generated queries Q from the whole query grammar (field subsets, derived fields, WHERE, ASOF/UNTIL absolute and relative biased to end before the newest stored period, GROUP BY dims/_/*/period/stride/CROSSTAB, HAVING, ORDER BY, LIMIT/OFFSET, FROM-subquery), each run with or without the memstore; oracle = metamorphic before/after differential: memstore-inclusive probes (full dump and a grouped dump) are equal before and after every Q, and again after the next forced flush, where the disk-only dump must equal the memstore-inclusive one. Non-trivial = probes returned rows and at least one Q executed; distinct as for C01.",
+		Real:  realS, Stub: stubS, Assumptions: append([]string{"probes are chosen so that they do not depend on the moving clock (native resolution, data far from the retention edge)"}, commonAssumptions...),
+		Probes: []string{"q.nonempty", "op.q", "site.flush.swapped"},
+	},
+	"C03": {
+		Level: "exploration", QuickSecs: 45, ThoroughSecs: 600, Recycle: 200,
+		Rule: "one case = one seeded plan executed on twin instances A and B in one bubble: same generated schema (incl. PERCENTILE/SHIFT fields) and the same inserts, but independently drawn flush schedules (A: table latencies or forced-only; B: other min/max latencies, optional memory cap => sorted forced flushes, injected memory-pressure flushes via hook H5, many flushes so that the every-10th re-encoding flush happens), clock advances and clean restarts; oracle = metamorphic: at generated quiescent points a battery of generated queries (full dumps + field subsets, grouping, windows, having, order, crosstab, subqueries) returns the same multiset on A and B, and right after a completed forced flush the disk-only result equals the memstore-inclusive one. Non-trivial = at least one compared query returned rows; distinct as for C01.",
+		Real:  realS, Stub: stubS, Assumptions: commonAssumptions,
+		Probes: []string{"probe.tenth-flush", "fault.restart.clean", "fault.mempressure", "op.flushcheck"},
+	},
 }
